@@ -2,7 +2,7 @@
 import os, json, random, subprocess, shutil
 import vf, pipeline
 LEVEL = "model_checking"
-UP = {"Listen": "LISTEN", "Flag": "FLAG", "Domain": "DOMAIN", "Host": "HOST", "TTL": "TTL2", "Mix": "MIX", "Pair": "PAIR", "Bogus": "BOGUS"}
+UP = {"Listen": "LISTEN", "Flag": "FLAG", "Domain": "DOMAIN", "Host": "HOST", "TTL": "TTL2", "Mix": "MIX", "Pair": "PAIR", "Bogus": "BOGUS", "Five": "FIVE", "Many": "MANY"}
 TOKS = [("53", "int"), ("-7", "int"), ("1.5", "float"), ("On", "bool1"), ("off", "bool0"), ("YES", "bool1"), ("no", "bool0"), ("true", "bool1"),
         ("False", "bool0"), ("1", "int1"), ("0", "int0"), ("mail", "str"), ("a b", "str"), ("it's", "str"), ('say "hi"', "str"), (".5", "str"),
         ("5.", "str"), ("1.2.3", "str"), ("", "str"), ("x\\y", "str"), ("TRUE", "bool1"), ("OFF", "bool0"), ("Yes", "bool1"), ("No", "bool0")]
@@ -35,10 +35,19 @@ def rand_aconf(rng, n):
         for _ in range(rng.randint(0, 4)):
             r = rng.random()
             if r < 0.55:
-                name = rng.choice(["Listen", "Flag", "TTL", "Mix", "Pair", "Bogus"]) if rng.random() < 0.9 else rng.choice(["Domain", "Host"])
-                k = {"Listen": 1, "Flag": 1, "TTL": 1, "Pair": 2, "Bogus": 1, "Domain": 1, "Host": 1}.get(name, rng.randint(0, 4))
+                name = rng.choice(["Listen", "Flag", "TTL", "Mix", "Pair", "Bogus", "Five", "Many"]) if rng.random() < 0.9 else rng.choice(["Domain", "Host"])
+                k = {"Listen": 1, "Flag": 1, "TTL": 1, "Pair": 2, "Bogus": 1, "Domain": 1, "Host": 1, "Five": 5, "Many": rng.randint(3, 8)}.get(name, rng.randint(0, 4))
                 if rng.random() < 0.1: k = max(0, k + rng.choice([-1, 1]))
-                out.append(line("opt", name, k))
+                ln = line("opt", name, k)
+                if name in ("Five", "Many") and rng.random() < 0.7:
+                    # mostly well-typed arguments, so that a single ill-typed one (any position) decides the outcome
+                    want = {"Five": ["int", "str", "float", "int", "bool"], "Many": ["bool"] * 8}[name]
+                    pick = {"int": [t for t in TOKS if t[1] in ("int", "int1", "int0")], "float": [t for t in TOKS if t[1] in ("int", "float", "int1", "int0")],
+                            "bool": [t for t in TOKS if t[1] in ("bool1", "bool0", "int1", "int0")], "str": TOKS}
+                    for j, a in enumerate(ln["args"]):
+                        if j < len(want) and rng.random() < 0.9:
+                            t = rng.choice(pick[want[j]]); a["txt"], a["kind"] = t[0], t[1]
+                out.append(ln)
             elif r < 0.85 and depth < 3:
                 name = rng.choice(["Domain", "Host"]) if rng.random() < 0.9 else "Listen"
                 o = line("open", name, 1 if rng.random() < 0.9 else 2); out.append(o); body(depth + 1, out)
@@ -233,6 +242,7 @@ def run(chk, tier, seed):
     # documents generated exhaustively by TLC from line pools, and seeded random larger ones
     adocs = [d for d in tlc_docs(chk, "AconfGen", 3 if tier == "quick" else 4, "AconfGen") if well_defined(d)]
     if tier == "quick" and len(adocs) > 2500: adocs = rng.sample(adocs, 2500)
+    if len(adocs) > 80000: adocs = rng.sample(adocs, 80000)
     run_aconf(chk, exe, adocs, rng, "tlc", 1 if tier == "quick" else 2)
     run_aconf(chk, exe, [d for d in rand_aconf(rng, 1500 if tier == "quick" else 8000) if well_defined(d)], rng, "rand", 2)
     idocs = [d for d in tlc_docs(chk, "IniGen", 3 if tier == "quick" else 4, "IniGen") if ini_ok(d)]
